@@ -381,6 +381,39 @@ theorem scanJS_to_midU {s : Store} (H : RemHyp c w addrs own' chain) (hKN : Keys
       rw [bw_L_wallet hOw _ u hu]; exact fun h => hw' h.symm)]
     rfl
 
+/-- the flag moment: C01's invariant (with `w`'s balance still its ledger total) IS the joined invariant at the tip
+    (the converse of `MW.Lemmas.ImportJoin.scanJ_tip_inv`, for an explicit stored chain) -/
+theorem inv_to_scanJS {s : Store} (hKN : KeysNodup c.own) (hV : ChainValid c.own chain) (hH : HeightsOK chain)
+    (hI : Inv c s chain) (hb : AMap.get s.balance w = some (totalU (bookOf c.p c.own chain).L w))
+    (hk : k + 1 = chain.length) : ScanJS c w s chain k := by
+  have hOr := ownR_sub hKN w
+  have hOw := ownW_sub hKN w
+  have ht : chain.take (k + 1) = chain := List.take_of_length_le (by omega)
+  have hA := hI.agree
+  have hJ : AgreeJ s (bookOf c.p (ownR c.own w) chain) (bookOf c.p (ownW c.own w) chain) := by
+    refine ⟨?_, ?_, ?_, ?_, ?_⟩
+    · intro w' tx idx
+      rw [hA.unspent, join_lookup (p := c.p) hOr hOw hV]
+    · intro key; rw [hA.credits, join_credits (p := c.p) hOr hOw hV]
+    · intro key; rw [hA.debits, join_debits (p := c.p) hOr hOw hV]
+    · intro key; rw [hA.game, join_game (p := c.p) hOr hOw hV]
+    · intro key; rw [hA.txrecs, join_txrecs (p := c.p) hOr hOw hV]
+  refine ⟨by rw [ht]; exact hJ, ?_, ?_, ?_, ?_, hI.sync, hI.syncedTo⟩
+  · intro h
+    rw [hA.blocks, blocks_eq_blockRecOf c.p c.own chain hV hH h]
+    apply blockRecOf_congr
+    intro key
+    unfold hasRec
+    rw [hA.txrecs]
+  · intro key loc hl
+    rw [hA.txrecs] at hl
+    obtain ⟨P₁, oc, P₂, hsp, _, hk', hloc⟩ := txrec_occ hV hl
+    exact ⟨oc, by rw [hsp]; simp, hk', hloc⟩
+  · rw [ht, hb, join_total_w (p := c.p) hOw]
+  · intro w' hww hr
+    rw [join_total_r (p := c.p) (chain := chain) hOr w' hww]
+    exact hI.bal w' hr
+
 end
 
 end MW.Lemmas.RemoveJoin
